@@ -93,6 +93,7 @@ Definition corr_ocli (c : ocli) : bool :=
   let obs_out := expand_rep (cc_obs_stdout c) in
   match cli_outputs first emitted (option_map str_of (cc_outfile c)) (cc_implicit_bin c) with
   | None => negb (cc_obs_ok c) && match obs with [] => true | _ => false end
+            && match cc_obs_lst c with None => true | Some _ => false end
   | Some outs =>
       let content o := file_format (o_format o) (cc_base c) (cc_code c) (o_tape_name o) in
       let files := flat_map (fun o => match o_dest o, content o with
@@ -101,8 +102,12 @@ Definition corr_ocli (c : ocli) : bool :=
       let stdout := flat_map (fun o => match o_dest o, content o with
                                        | ToStdout, Ok l => l
                                        | _, _ => [] end) outs in
+      let listing := if cc_lst c
+                     then option_map (abspath cwd) (cli_listing first emitted (option_map str_of (cc_outfile c)) (cc_implicit_bin c))
+                     else None in
       cc_obs_ok c && forallb (fun o => is_ok (content o)) outs
       && same_files (dedupe_last files) obs && zlist_eqb stdout obs_out
+      && opt_eqb str_eqb listing (option_map str_of (cc_obs_lst c))
   end.
 
 Definition judge_cli (c : ocli) : N := code_of (corr_ocli c) (prop_ocli c).
